@@ -41,7 +41,10 @@ fn expand_animator(input: AnimatorInput) -> Result<TokenStream2> {
         _ => quote! { #target_type::default() },
     };
     let default_values = default_values_ident();
-    let mut shared_timelines = Vec::new();
+    // Every arm's timeline is built exactly once, in the order in which the arms are written (so
+    // that the expressions inside the arms are evaluated once each, in source order), and then
+    // installed for each state the arm lists: clones for all but the last.
+    let mut arm_timelines = Vec::new();
     let mut state_assignments = Vec::new();
     for (index, state_mapping) in states.iter().enumerate() {
         let timeline = expand_timeline_or_merge(name, &state_mapping.behavior)?;
@@ -49,25 +52,20 @@ fn expand_animator(input: AnimatorInput) -> Result<TokenStream2> {
         let Some(last_state) = arm_states.pop() else {
             continue;
         };
-        if arm_states.is_empty() {
-            state_assignments.push(quote! { .on(#last_state, #timeline) });
-            continue;
-        }
-        // Several states share one timeline: build it once, so that the expressions in the arm
-        // are evaluated once, and install clones of it.
-        let shared = Ident::new(&format!("shared_timeline_{index}"), Span::mixed_site());
-        shared_timelines.push(quote! {
-            let #shared = ::mina::TimelineOrBuilder::build(#timeline);
+        let arm_timeline = Ident::new(&format!("arm_timeline_{index}"), Span::mixed_site());
+        arm_timelines.push(quote! {
+            let #arm_timeline = ::mina::TimelineOrBuilder::build(#timeline);
         });
         for state in arm_states {
-            state_assignments.push(quote! { .on(#state, ::std::clone::Clone::clone(&#shared)) });
+            state_assignments
+                .push(quote! { .on(#state, ::std::clone::Clone::clone(&#arm_timeline)) });
         }
-        state_assignments.push(quote! { .on(#last_state, #shared) });
+        state_assignments.push(quote! { .on(#last_state, #arm_timeline) });
     }
     let anim = quote! {
         {
             let #default_values = #default_values_assignment;
-            #(#shared_timelines)*
+            #(#arm_timelines)*
             ::mina::StateAnimatorBuilder::new()
                 #default_state_assignment
                 .from_values(#default_values.clone())
